@@ -190,6 +190,21 @@ Proof.
   rewrite BL.land15 by assumption. change (2 ^ 32)%N with 4294967296%N. f_equal. f_equal; lia.
 Qed.
 
+Theorem decoders_link bs : bytesN bs ->
+  rxparamsetupreq_unmarshal (map Z.of_N bs) = omap rx_view (MC.dec MC.KRXParamSetupReq bs) /\
+  newchannelreq_unmarshal (map Z.of_N bs) = omap newch_view (MC.dec MC.KNewChannelReq bs) /\
+  dlchannelreq_unmarshal (map Z.of_N bs) = omap dlch_view (MC.dec MC.KDLChannelReq bs) /\
+  beaconfreqreq_unmarshal (map Z.of_N bs) = omap beacon_view (MC.dec MC.KBeaconFreqReq bs) /\
+  pingslotchannelreq_unmarshal (map Z.of_N bs) = omap pingslot_view (MC.dec MC.KPingSlotChannelReq bs).
+Proof.
+  intros H. repeat split.
+  - now apply rxparamsetupreq_dec_link.
+  - now apply newchannelreq_dec_link.
+  - now apply dlchannelreq_dec_link.
+  - now apply beaconfreqreq_dec_link.
+  - now apply pingslotchannelreq_dec_link.
+Qed.
+
 (* ---- LinkADRReq ----------------------------------------------------------- *)
 
 From LW Require Mac.Spec Mac.EncProofs.
@@ -400,3 +415,104 @@ Proof.
   - cbn [firstn triples map skipn Nat.mul Nat.add le_val unle3]. f_equal. f_equal.
     repeat (f_equal; try lia).
 Qed.
+
+(* ---- the C15 cross-layer round trips against the project's MAC model ------- *)
+
+From LW Require Mac.StreamProofs.
+
+Section MacRoundtrips.
+Import MC.
+Open Scope N_scope.
+
+Local Ltac mac_roundtrip :=
+  match goal with
+  | |- exists bs, enc ?v = Ok bs /\ _ =>
+    let E := fresh "E" in
+    destruct (enc v) as [bs| | |] eqn:E;
+    [exists bs; split; [reflexivity|];
+     refine (LW.Mac.StreamProofs.roundtrip v bs _ E _)
+    | exfalso | exfalso | exfalso]
+  end.
+
+Theorem rxparamsetupreq_mac f dr : f mod 100 = 0 -> f / 100 < 16777216 -> dr <= 15 ->
+  exists bs, enc (PRXParamSetupReq f false dr 0) = Ok bs /\
+             dec KRXParamSetupReq bs = Ok (PRXParamSetupReq f false dr 0).
+Proof.
+  intros H1 H2 H3. mac_roundtrip.
+  1: { unfold LW.Mac.EncProofs.wf_go, LW.Mac.EncProofs.u32, LW.Mac.EncProofs.u8. lia. }
+  1: reflexivity.
+  all: revert E; unfold enc, enc_dlsettings;
+      destruct (16777216 <=? f / 100) eqn:C1; try lia;
+      destruct (f mod 100 =? 0) eqn:C2; try lia; cbn [negb];
+      destruct (15 <? dr) eqn:C3; try lia; change (7 <? 0) with false; cbn [bind]; discriminate.
+Qed.
+
+(* below 1.2 GHz in 100 Hz steps, from 2.4 GHz in 200 Hz steps; in between the
+   format is ambiguous (C15-4 / C07-2, [newchannelreq_refuted]) *)
+Theorem newchannelreq_mac ch f mx mn :
+  (f mod 100 = 0 /\ f < 1200000000) \/ (2400000000 <= f /\ f mod 200 = 0 /\ f / 200 < 16777216) ->
+  ch < 256 -> mx <= 15 -> mn <= 15 ->
+  exists bs, enc (PNewChannelReq ch f mx mn) = Ok bs /\
+             dec KNewChannelReq bs = Ok (PNewChannelReq ch f mx mn).
+Proof.
+  intros H1 H2 H3 H4. mac_roundtrip.
+  1: { unfold LW.Mac.EncProofs.wf_go, LW.Mac.EncProofs.u32, LW.Mac.EncProofs.u8. lia. }
+  1: { unfold LW.Mac.EncProofs.newch_ambiguous. lia. }
+  all: revert E; unfold enc;
+    destruct (2400000000 <=? f) eqn:C0;
+    [destruct (16777216 <=? f / 2 / 100) eqn:C1; try lia
+    |destruct (16777216 <=? f / 100) eqn:C1; try lia];
+    (destruct (f mod 100 =? 0) eqn:C2; try lia); cbn [negb andb];
+    try (destruct (f mod 200 =? 0) eqn:C4; try lia; cbn [negb]);
+    (destruct (15 <? mx) eqn:C3; try lia); (destruct (15 <? mn) eqn:C5; try lia); discriminate.
+Qed.
+
+Theorem dlchannelreq_mac ch f : f mod 100 = 0 -> f / 100 < 16777216 -> ch < 256 ->
+  exists bs, enc (PDLChannelReq ch f) = Ok bs /\ dec KDLChannelReq bs = Ok (PDLChannelReq ch f).
+Proof.
+  intros H1 H2 H3. mac_roundtrip.
+  1: { unfold LW.Mac.EncProofs.wf_go, LW.Mac.EncProofs.u32, LW.Mac.EncProofs.u8. lia. }
+  1: reflexivity.
+  all: revert E; unfold enc;
+    (destruct (16777216 <=? f / 100) eqn:C1; try lia);
+    (destruct (f mod 100 =? 0) eqn:C2; try lia); cbn [negb]; discriminate.
+Qed.
+
+Theorem beaconfreqreq_mac f : f mod 100 = 0 -> f / 100 < 16777216 ->
+  exists bs, enc (PBeaconFreqReq f) = Ok bs /\ dec KBeaconFreqReq bs = Ok (PBeaconFreqReq f).
+Proof.
+  intros H1 H2. mac_roundtrip.
+  1: { unfold LW.Mac.EncProofs.wf_go, LW.Mac.EncProofs.u32. lia. }
+  1: reflexivity.
+  all: revert E; unfold enc;
+    (destruct (16777216 <=? f / 100) eqn:C1; try lia);
+    (destruct (f mod 100 =? 0) eqn:C2; try lia); cbn [negb]; discriminate.
+Qed.
+
+Theorem pingslotchannelreq_mac f dr : f mod 100 = 0 -> f / 100 < 16777216 -> dr <= 15 ->
+  exists bs, enc (PPingSlotChannelReq f dr) = Ok bs /\
+             dec KPingSlotChannelReq bs = Ok (PPingSlotChannelReq f dr).
+Proof.
+  intros H1 H2 H3. mac_roundtrip.
+  1: { unfold LW.Mac.EncProofs.wf_go, LW.Mac.EncProofs.u32, LW.Mac.EncProofs.u8. lia. }
+  1: reflexivity.
+  all: revert E; unfold enc;
+    (destruct (16777216 <=? f / 100) eqn:C1; try lia);
+    (destruct (f mod 100 =? 0) eqn:C2; try lia); cbn [negb];
+    (destruct (16 <=? dr) eqn:C3; try lia); discriminate.
+Qed.
+
+(* a LinkADRReq the planner produces (C14: every planned payload is [encodable]) *)
+Theorem linkadrreq_mac dr txp (cm : list bool) cntl nbrep :
+  dr <= 15 -> txp <= 15 -> cntl <= 7 -> nbrep <= 15 -> length cm = 16%nat ->
+  exists bs, enc (PLinkADRReq dr txp cm cntl nbrep) = Ok bs /\
+             dec KLinkADRReq bs = Ok (PLinkADRReq dr txp cm cntl nbrep).
+Proof.
+  intros H1 H2 H3 H4 H5. mac_roundtrip.
+  1: { unfold LW.Mac.EncProofs.wf_go, LW.Mac.EncProofs.u8. rewrite H5. cbn [Nat.eqb]. lia. }
+  1: reflexivity.
+  all: revert E; unfold enc, enc_redundancy;
+    (destruct (15 <? dr) eqn:C1; try lia); (destruct (15 <? txp) eqn:C2; try lia);
+    (destruct (15 <? nbrep) eqn:C3; try lia); (destruct (7 <? cntl) eqn:C4; try lia); cbn [bind]; discriminate.
+Qed.
+End MacRoundtrips.
